@@ -88,8 +88,11 @@ def load(repo=None, symbolic=True):
             sys.modules.update(saved)
     if symbolic:
         from . import symmath
-        if hasattr(r.se2, "math"):
-            r.se2.math = symmath
+        import math as _real_math
+        for name in MODULES:
+            # every repository module that imported `math` sees the symbolic-aware one
+            if getattr(sys.modules[name], "math", None) is _real_math:
+                sys.modules[name].math = symmath
         r.np = symnp
     else:
         import numpy
